@@ -345,9 +345,19 @@ def random_list(rng, nmin=2, nmax=5, den=4, degenerate=0.3):
 
 
 def random_interval(rng, ts, te, den=2):
+    """sub-interval of the recording; one in four is anchored at an edge: the whole recording,
+    [t_start, b] or [a, t_end] (spikes exactly on a bound of the interval are where the interval
+    forms of the measures differ from the whole-recording forms)"""
     lo, hi = int(ts * den), int(te * den)
     a = rng.randint(lo, hi - 1)
     b = rng.randint(a + 1, hi)
+    r = rng.random()
+    if r < 0.1:
+        return Fr(ts), Fr(te)
+    if r < 0.18:
+        return Fr(ts), Fr(b, den)
+    if r < 0.26:
+        return Fr(a, den), Fr(te)
     return Fr(a, den), Fr(b, den)
 
 
